@@ -6,6 +6,10 @@ import Ibx.Model.Pop3
     store <boxhex> <msgs>                -> ok                      (msgs = `_` | idhex:size:srchex,… : what GetMessages(box) returns from now on)
     line <hex> [send=0]                  -> ok ph=<A|T|Q> u=<userhex> cls=<+|-> p=<hexlist> [m=<hexlist>] rm=<hexlist>  | panic | badstate | ended
     end <eof|readerr>                    -> end=<…> n=<#replies incl. greeting> rm=<hexlist> ph=<…>   (re-runs `session` over the recorded events)
+    end <timeout|neterr>                 -> the same plus bye=<hex of the exact last line | ->                        (C13End: `sessionX`)
+    unsent                               -> ok      (C13End: the reply to the last `line` could not be written; same as having sent it with send=0)
+    fault <idhex> <none|open|read:K>     -> ok      (C13End: Source() of that message fails / its reader fails after K bytes; `line` then
+                                                     adds ft=<dot|doterr|err> fl=<hexlist> when the reply is a fault reply)
 -/
 namespace Driver.Pop3
 open Ibx Ibx.Model.Pop3 Driver
@@ -14,6 +18,7 @@ structure DSt where
   st : St := St.init
   table : List (Bytes × List Msg) := []
   evs : List Ev := []          -- reversed
+  faults : List (Bytes × SrcFault) := []
   ended : Bool := false
 
 def storeFn (table : List (Bytes × List Msg)) : Bytes → List Msg :=
@@ -61,6 +66,19 @@ def endS : End → String
   | .quit => "quit" | .eof => "eof" | .readError => "readerr" | .sendError => "senderr"
   | .panic => "panic" | .badState => "badstate"
 
+def faultFn (t : List (Bytes × SrcFault)) : Bytes → SrcFault :=
+  fun i => ((t.find? (·.1 == i)).map (·.2)).getD .none
+
+def parseFault (s : String) : Option SrcFault :=
+  if s == "none" then some .none
+  else if s == "open" then some .openFails
+  else match s.splitOn ":" with
+    | ["read", k] => k.toNat?.map .readFails
+    | _ => none
+
+def tailS : Tail → String
+  | .dot => "dot" | .dotErr => "doterr" | .err => "err"
+
 def handle (d : DSt) (toks : List String) : DSt × String :=
   let (ps, kv) := splitKV toks
   match ps with
@@ -68,6 +86,15 @@ def handle (d : DSt) (toks : List String) : DSt × String :=
   | ["store", box, msgs] =>
     match Bytes.ofHex box, parseMsgs msgs with
     | some b, some ms => ({ d with table := (b, ms) :: d.table.filter (·.1 != b) }, "ok")
+    | _, _ => (d, "bad-op")
+  | ["unsent"] =>
+    -- the reply to the line just processed could not be written: the loop ends after it
+    match d.evs with
+    | ev :: rest => ({ d with evs := { ev with sendOk := false } :: rest, ended := true }, "ok")
+    | [] => (d, "bad-op")
+  | ["fault", i, f] =>
+    match Bytes.ofHex i, parseFault f with
+    | some i, some f => ({ d with faults := (i, f) :: d.faults.filter (·.1 != i) }, "ok")
     | _, _ => (d, "bad-op")
   | ["line", h] =>
     match Bytes.ofHex h with
@@ -82,12 +109,22 @@ def handle (d : DSt) (toks : List String) : DSt × String :=
         | .panic => ({ d with ended := true, evs := ev :: d.evs }, "panic")
         | .badState => ({ d with ended := true, evs := ev :: d.evs }, "badstate")
         | .ok s' r rm =>
+          let fs := match (stepF (faultFn d.faults) store d.st l).fault with
+            | none => ""
+            | some fr => s!" ft={tailS fr.tail} fl={hexL fr.lines}"
           ({ d with st := s', evs := ev :: d.evs, ended := !sendOk },
-           s!"ok ph={phaseS s'.phase} u={Bytes.toHex s'.user} {renderReply r} rm={hexL rm}")
+           s!"ok ph={phaseS s'.phase} u={Bytes.toHex s'.user} {renderReply r} rm={hexL rm}" ++ fs)
   | ["end", t] =>
     let term? : Option Term := if t == "eof" then some .eof else if t == "readerr" then some .readError else none
     match term? with
-    | none => (d, "bad-op")
+    | none =>
+      let tx? : Option TermX := if t == "timeout" then some .timeout else if t == "neterr" then some .neterr else none
+      match tx? with
+      | none => (d, "bad-op")
+      | some tx =>
+        let x := sessionX tx (faultFn d.faults) d.evs.reverse
+        let bye := match x.bye with | none => "-" | some b => Bytes.toHex (byeText b)
+        (d, s!"end={endS x.base.ending} n={x.base.replies.length} rm={hexL x.base.removed} ph={phaseS x.base.final.phase} bye={bye}")
     | some term =>
       let tr := session term d.evs.reverse
       (d, s!"end={endS tr.ending} n={tr.replies.length} rm={hexL tr.removed} ph={phaseS tr.final.phase}")
